@@ -26,6 +26,7 @@ type fakeAPI struct {
 	pos           int
 	cur           op
 	calls         []string
+	jcalls        []string // the same for the judge, with NotFound distinguished (gn)
 	gets          [][]Entry
 	subs          [][]Entry
 	schemas       *schemaSet // when set: every submitted object is checked against the CRD status schema
@@ -43,14 +44,17 @@ func (f *fakeAPI) Get(_ context.Context, _ client.ObjectKey, obj client.Object, 
 	switch f.cur.kind {
 	case 'g':
 		f.calls = append(f.calls, "g0")
+		f.jcalls = append(f.jcalls, "g0")
 		return errInjected
 	case 'n':
 		f.calls = append(f.calls, "g0")
+		f.jcalls = append(f.jcalls, "gn")
 		return apierrors.NewNotFound(schema.GroupResource{Resource: "x"}, "obj")
 	}
 	// like the cache reader of controller-runtime: the whole object is replaced by a deep copy
 	reflect.ValueOf(obj).Elem().Set(reflect.ValueOf(f.store.DeepCopyObject()).Elem())
 	f.calls = append(f.calls, "g1")
+	f.jcalls = append(f.jcalls, "g1")
 	f.gets = append(f.gets, f.k.getStatus(obj))
 	return nil
 }
@@ -76,13 +80,16 @@ func (f *fakeAPI) statusUpdate(_ context.Context, obj client.Object) error {
 	switch f.cur.kind {
 	case 'u':
 		f.calls = append(f.calls, "u0")
+		f.jcalls = append(f.jcalls, "u0")
 		return errInjected
 	case 'c':
 		f.calls = append(f.calls, "u0")
+		f.jcalls = append(f.jcalls, "u0")
 		f.k.setStatus(f.store, cloneStatus(f.cur.poke))
 		return apierrors.NewConflict(schema.GroupResource{Resource: "x"}, "obj", errInjected)
 	}
 	f.calls = append(f.calls, "u1")
+	f.jcalls = append(f.jcalls, "u1")
 	f.store = obj.DeepCopyObject().(client.Object)
 	return nil
 }
